@@ -157,8 +157,12 @@ def Tok.ct : Tok → CT
 def Tok.lemmaName : Tok → String
   | .verb l _ _ => l.name | .cannot => "cannot" | .not_ => "not" | .to_ => "to" | _ => ""
 
+/-- what a formatting level is: an ordinary constituent / word, the main VP, the tag added by `tag_question` -/
+inductive GrpKind | plain | vp | tag deriving DecidableEq, Repr, Inhabited
+
 /-- one formatting level: its tokens, whether contraction is active inside, whether `.a(",")` was applied to it -/
 structure Grp where
+  kind : GrpKind := .plain
   contr : Bool
   toks : List Tok
   comma : Bool
@@ -168,9 +172,13 @@ structure Grp where
 structure Out where
   grps : List Grp
   warn : Nat := 0
+  /-- the contents of `v_peng` when the first verb was conjugated (already substituted in `grps`) -/
+  agr : Agr := Agr.dflt
   deriving DecidableEq, Repr, Inhabited
 
 def Out.flat (o : Out) : List Tok := o.grps.flatMap (·.toks)
+/-- the clause proper: everything but the tag -/
+def Out.main (o : Out) : List Tok := (o.grps.filter (fun g => g.kind != .tag)).flatMap (·.toks)
 
 /-- the clause specification (fragment G restricted to what C04 quantifies over) -/
 structure Spec where
@@ -371,10 +379,9 @@ def passivatePh (st : PState) : PState :=
     | none => st
 
 /-- `PhraseEn.processTyp_verb` (PhraseEn.py:71-96) -/
-def processTypVerbPh (sp : Spec) (ty : Typ) (st : PState) : PState :=
+def processTypVerbPh (words : List Tok) (st : PState) : PState :=
   match findIdx (fun n => n.ct == .V) st.vpEl with
   | some i =>
-    let words := affixHopping sp.verb (AT.ofTense sp.t) ty .shared
     { st with vpEl := st.vpEl.take i ++ words.map .word ++ st.vpEl.drop (i + 1) }
   | none => st
 
@@ -515,21 +522,26 @@ def agrAtVerb (pending : Option Agr) (stale : Agr) (toks : List Tok) : Agr :=
 def grpsPh (ty : Typ) (st : PState) : List Grp :=
   st.sEl.map (fun n =>
     match n with
-    | .vp => ⟨ty.contr, flatVP st.vpEl, st.vpComma⟩
-    | .tag ts => ⟨true, ts, false⟩
-    | n => ⟨false, flatVP [n], false⟩)
+    | .vp => ⟨.vp, ty.contr, flatVP st.vpEl, st.vpComma⟩
+    | .tag ts => ⟨.tag, true, ts, false⟩
+    | n => ⟨.plain, false, flatVP [n], false⟩)
 
-/-- `Phrase.processTyp` then linearisation (`Phrase.real`) -/
-def realizePhrase (sp : Spec) (ty : Typ) : Except Crash Out := do
+/-- `Phrase.processTyp` then linearisation (`Phrase.real`), for the words `ws` that affixHopping returned -/
+def realizePhraseW (sp : Spec) (ty : Typ) (ws : List Tok) : Except Crash Out := do
   let st0 := initPh sp
   let st1 := if ty.pas then passivatePh st0 else st0
-  let st2 := processTypVerbPh sp ty st1
+  let st2 := processTypVerbPh ws st1
   let st3 ← match ty.int with
     | some i => processIntPh ty i st2
     | none => pure st2
   let grps := grpsPh ty st3
   let a := agrAtVerb st3.pending st3.agr (grps.flatMap (·.toks))
-  pure { grps := grps.map (fun g => { g with toks := g.toks.map (Tok.resolve a) }) }
+  pure { grps := grps.map (fun g => { g with toks := g.toks.map (Tok.resolve a) }), agr := a }
+
+/-- the words of the clause verb: `self.affixHopping(v, vp.getProp("t"), getRules()["compound"], types)` -/
+def clauseWords (sp : Spec) (ty : Typ) : List Tok := affixHopping sp.verb (AT.ofTense sp.t) ty .shared
+
+def realizePhrase (sp : Spec) (ty : Typ) : Except Crash Out := realizePhraseW sp ty (clauseWords sp ty)
 
 /-! ### dependency notation -/
 
@@ -603,8 +615,7 @@ def passivateDep (st : DState) : DState :=
     | none => st
 
 /-- `DependentEn.processTyp_verb` (DependentEn.py:42-55) -/
-def processTypVerbDep (sp : Spec) (ty : Typ) (st : DState) : DState :=
-  let words := affixHopping sp.verb (AT.ofTense sp.t) ty .shared
+def processTypVerbDep (words : List Tok) (st : DState) : DState :=
   match words.getLast? with
   | some last => { st with term := .tok last, deps := st.deps ++ words.dropLast.map (fun w => ⟨.pre, .word w, false, false⟩) }
   | none => st
@@ -652,10 +663,13 @@ def tagQuestionDep (ty : Typ) (st : DState) : DState :=
     | some si =>
       match (st.deps.getD si default).head with
       | .arg (.np a) => (.proOfNP a, ⟨.p3, a.n⟩)
-      | .arg (.proNom a) => (.proNom a, staleAgr a)
-      | .arg (.proI a) =>
-        if a.pe == .p1 && aux == .be && t == some .p && !neg then (dfltPro, ⟨pe, n⟩) else (.proI a, ⟨a.pe, a.n⟩)
-      | .arg a => (a, ⟨a.pe, .s⟩)
+      | .arg a =>
+        -- `subject.getProp("pe") == 1 and aux == "be" and t == "p" and not neg`: the default pronoun is kept
+        if a.pe == .p1 && aux == .be && t == some .p && !neg then (dfltPro, ⟨pe, n⟩)
+        else (a, match a with
+                 | .proI b => ⟨b.pe, b.n⟩
+                 | .proNom b => staleAgr b
+                 | a => ⟨a.pe, .s⟩)
       | _ => (.it, ⟨.p3, .s⟩)
     | none => (.it, ⟨.p3, .s⟩)
   -- the comma goes to the last `post` dependent, or to currV when there is none
@@ -739,27 +753,30 @@ def processIntDep (ty : Typ) (i : Int) (st : DState) : Except Crash DState :=
 
 def grpOfNode (d : DNode) : Grp :=
   match d.head with
-  | .arg a => ⟨false, [.arg a], d.comma⟩
-  | .pp p a => ⟨false, [.prep p, .arg a], d.comma⟩
-  | .word t => ⟨false, [t], d.comma⟩
-  | .tag ts => ⟨true, ts, d.comma⟩
+  | .arg a => ⟨.plain, false, [.arg a], d.comma⟩
+  | .pp p a => ⟨.plain, false, [.prep p, .arg a], d.comma⟩
+  | .word t => ⟨.plain, false, [t], d.comma⟩
+  | .tag ts => ⟨.tag, true, ts, d.comma⟩
 
 /-- `Dependent.real` (Dependent.py:453-495): `pre` dependents (stable), the terminal, the `post` dependents -/
 def grpsDep (st : DState) : List Grp :=
   let pres := st.deps.filter (·.isPre)
   let posts := st.deps.filter (fun d => !d.isPre)
   let term : List Grp := match st.term with
-    | .tok t => [⟨false, [t], st.termComma⟩]
+    | .tok t => [⟨.plain, false, [t], st.termComma⟩]
     | .v0 => []
   pres.map grpOfNode ++ term ++ posts.map grpOfNode
 
-def realizeDep (sp : Spec) (ty : Typ) : Except Crash Out := do
+def realizeDepW (sp : Spec) (ty : Typ) (ws : List Tok) : Except Crash Out := do
   let st0 := initDep sp
   let st1 := if ty.pas then passivateDep st0 else st0
-  let st2 := processTypVerbDep sp ty st1
+  let st2 := processTypVerbDep ws st1
   let st3 ← match ty.int with
     | some i => processIntDep ty i st2
     | none => pure st2
-  pure { grps := (grpsDep st3).map (fun g => { g with toks := g.toks.map (Tok.resolve st3.agr) }), warn := st3.warn }
+  pure { grps := (grpsDep st3).map (fun g => { g with toks := g.toks.map (Tok.resolve st3.agr) }), warn := st3.warn,
+         agr := st3.agr }
+
+def realizeDep (sp : Spec) (ty : Typ) : Except Crash Out := realizeDepW sp ty (clauseWords sp ty)
 
 end Pyrealb.ClauseEn
